@@ -1,5 +1,14 @@
-"""C11 — evaluation yields plain Python data and leaves the source tree reusable."""
+"""C11 — evaluation yields plain Python data and leaves the source tree reusable.
+
+Input family: the dynamic-node documents of the evaluation family (gen_eval.gen_dyn_case); in a fraction P_ALIAS of the
+cases one stage additionally gets a second spelling of a path that exists in the case (add_alias): a single mapping key
+whose text is the NodePath string of several nested keys / list positions ("b.c" or "l[0]" next to b: {c: ..} / l: [..],
+at any depth, in any stage, before or after the nested spelling), or a float key next to nested digit-string keys
+(1.5 next to "1": {"5": ..}).  Two different nodes of the merged tree then have the same path string; each must still
+evaluate to its own value (the `mirror` walk of the oracle)."""
 from props.evalfam import *
+import random
+import gen_merge as G
 from awesomeyaml.utils import Bunch
 
 def py_walk_leaks(v, path='cfg', seen=None):
@@ -30,16 +39,105 @@ def py_walk_leaks(v, path='cfg', seen=None):
         for i, x in enumerate(v.items): out += py_walk_leaks(x, f'{path}.t[{i}]', seen)
     return out
 
+def raw_at(raw, path):
+    """the raw node at `path` of a document, or None"""
+    for k in path:
+        if 'm' in raw:
+            hit = [c for kk, c in raw['m'] if (sc_py(kk) if not isinstance(kk, dict) else kk['f']) == k]
+            if not hit: return None
+            raw = hit[-1]
+        elif 'q' in raw and isinstance(k, int) and 0 <= k < len(raw['q']):
+            raw = raw['q'][k]
+        else:
+            return None
+    return raw
+
+def is_plain_map(raw):
+    return raw is not None and 'm' in raw and (raw.get('t') or {'k': 'plain'}).get('k') == 'plain'
+
+def xref_texts(docs):
+    return set(n['s']['x'] for d in docs for _, n in G.paths_of(d['raw']) if 's' in n and 'x' in n['s'] and (n.get('t') or {}).get('k') == 'xref')
+
+def ambiguous_strings(docs):
+    """path strings spelled by two different paths of the documents (NodePath strings are not injective:
+    the key 'a.b' below the root and the key 'b' below 'a' are both 'a.b')"""
+    by = {}
+    for d in docs:
+        for p, _ in G.paths_of(d['raw']):
+            by.setdefault(NodePath.join_path(list(p)), set()).add(tuple((type(k).__name__, k) for k in p))
+    return set(s for s, ps in by.items() if len(ps) > 1)
+
+def alias_value(rng):
+    """a plain value that differs in value (and mostly in type) from everything the base generator writes"""
+    return rng.choice([lambda: S('alias'), lambda: S(77), lambda: S(2.5), lambda: Q([S('alias')]), lambda: Q([]),
+                       lambda: M({'al': S(77)}), lambda: M({})])()
+
+def add_alias(rng, docs):
+    """Adds to a plain mapping of one stage a second spelling of a path that exists in the case: a single key whose
+    text is the path string of several nested keys / list positions ('b.c' or 'l[0]' next to b: {c: ..} / l: [..]),
+    or a float key next to nested digit-string keys (1.5 next to '1': {'5': ..}); placed before or after the nested
+    spelling. Returns the new documents, or None when no alias fits."""
+    docs = copy.deepcopy(docs)
+    j = rng.randrange(len(docs))
+    if rng.random() < 0.15:
+        def deleting(n):
+            return n is not None and ('q' in n or (n.get('t') or {}).get('k') in ('call', 'bind') or (n.get('kw') or {}).get('del'))
+        def pruned(p):   # another stage holds a deleting node (list, function node, !del) at or above the mapping
+            return any(deleting(raw_at(d['raw'], p[:i])) for dj, d in enumerate(docs) if dj != j for i in range(1, len(p) + 1))
+        maps = [n for p, n in G.paths_of(docs[j]['raw']) if is_plain_map(n)]      # also where a deleting node prunes it (repo fix D34)
+        if not maps:
+            return None
+        tgt = rng.choice(maps)
+        pair = [[sc_json(1.5), alias_value(rng)], ['1', M({'5': S(rng.choice([0, 'p', None]))})]]
+        rng.shuffle(pair)
+        for kv in pair:
+            tgt['m'].insert(rng.randrange(len(tgt['m']) + 1), kv)
+    else:
+        cands = [p for d in docs for p, _ in G.paths_of(d['raw']) if len(p) >= 2 and all(isinstance(k, (str, int)) and not isinstance(k, bool) for k in p)]
+        if not cands:
+            return None
+        p = rng.choice(cands)
+        splits = [i for i in range(len(p) - 1) if isinstance(p[i], str) and is_plain_map(raw_at(docs[j]['raw'], p[:i]))]
+        if not splits:
+            return None
+        i = rng.choice(splits)
+        tgt = raw_at(docs[j]['raw'], p[:i])
+        key = NodePath.join_path(list(p[i:]))
+        keys = [sc_py(k) if not isinstance(k, dict) else k['f'] for k, _ in tgt['m']]
+        if key in keys:
+            return None
+        pos = keys.index(p[i]) + rng.choice([0, 1]) if p[i] in keys and rng.random() < 0.8 else rng.randrange(len(keys) + 1)
+        tgt['m'].insert(pos, [key, alias_value(rng)])
+    return docs      # references that spell a shared path string are included (repo fix D33: they mean the nested path)
+
 class C11(EvalFamProp):
     ID = 'C11'
+    P_ALIAS = 0.3
     P_UNSAFE = 0.0
     P_UNSAFE_SRC = 0.0
     P_BAD = 0.03
     RULE = ('1-3 stages of plain and dynamic nodes (all scalar types, underscore keys, empty containers, xref / call / bind / eval); '
+            'in 30% of the cases a plain mapping of one stage also gets a key that spells an existing nested path as one string '
+            '("b.c", "l[0]", float 1.5 next to "1": {"5": ..}) so that two nodes share a path string; '
             'after a successful build the result is walked for node objects (keys included) and non-exact scalar types, attribute '
             'access is compared with item access, the kept source is evaluated again (twice) and the result is mutated; '
             'non-trivial = the build succeeds with a non-empty config; distinct by SHA-1')
-    ASSUMPTIONS = ['the value returned by a user callable is the callable\'s business: only what awesomeyaml itself produces is walked']
+    ASSUMPTIONS = ['the value returned by a user callable is the callable\'s business: only what awesomeyaml itself produces is walked',
+                   'a reference whose text is shared by two paths ("a.b" next to a key "a.b") means the nested path; before repo fix D33 '
+                   'the answer depended on the evaluation order, before D34 a float key below a pruned mapping raised MergeError - both '
+                   'kinds of input are part of the family now']
+
+    def gen_cases(self, rng, n, tier):
+        cases = EvalFamProp.gen_cases(self, rng, n, tier)
+        r2 = random.Random(rng.random())
+        for c in cases:
+            if r2.random() < self.P_ALIAS:
+                for _ in range(3):
+                    docs = add_alias(r2, c['docs'])
+                    if docs is not None:
+                        c['docs'] = docs
+                        break
+        return cases
 
     def corpus(self):
         D = lambda *raws: {'docs': [{'raw': r} for r in raws], 'style': ['flow', 0, 0]}
@@ -47,6 +145,12 @@ class C11(EvalFamProp):
             D(M({'_w': S(3), 'a': M({'_u': S(1), 'v': S(True), 'n': S(None), 'f': S(1.5), 'e': Sempty()}), 'l': Q([M({}), Q([])])})),   # D02
             D(M({'r': Stext('bar.z', 'xref'), 'c': Stext('T(bar)', 'eval'), 'bar': M({'z': S(1), 'y': S(2)})})),                        # D20
             D(M({'c': Stext('T(d, S1, k)', 'eval'), 'k': S(12), 'd': M({'a': M({}), 'c': Stext('c', 'xref')})})),                        # D21 (known finding)
+            # two nodes with one path string (seeded S3-C11): each evaluates to its own value, whichever comes first
+            D(M([('k.z', S(2.5)), ('k', M({'z': S(True)}))])),
+            D(M({'x': M({'a': Q([])})}), M({'x.a': S('alias')})),
+            D(M([('b[0]', S(2.5)), ('b', Q([Q([])]))])),
+            D(M([(1.5, M({})), ('1', M({'5': S(0)}))])),
+            D(M({'o': M({'lr': Q([S(0.1), S(0.01)]), 'm': S(0.9)}), 'o.lr': S(0.1), 'r': Stext('o.m', 'xref'), 'c': Stext('T(o)', 'eval')})),
         ]
 
     def impl(self, case):
@@ -125,6 +229,9 @@ class C11(EvalFamProp):
                 return 'D21: a dependency cycle through an !eval name leaks a lazy placeholder into the result: ' + c
             return c
         return None
+
+    def features(self, case, io):
+        return EvalFamProp.features(self, case, io) + (['shared-path-string'] if ambiguous_strings(case['docs']) else [])
 
     def finding_key(self, case, desc):
         if desc and desc.startswith('D21'):
